@@ -32,8 +32,14 @@ pub fn denom_name(n: u128) -> String {
     format!("denom{n}")
 }
 
-fn guarded<F: FnOnce() -> String>(f: F) -> String {
-    match catch_unwind(AssertUnwindSafe(f)) {
+pub static GUARDED: std::sync::atomic::AtomicBool = std::sync::atomic::AtomicBool::new(false);
+
+/// run the implementation; a panic inside is the contract aborting (→ "fail"), not a harness bug
+pub fn guarded<F: FnOnce() -> String>(f: F) -> String {
+    GUARDED.store(true, std::sync::atomic::Ordering::SeqCst);
+    let r = catch_unwind(AssertUnwindSafe(f));
+    GUARDED.store(false, std::sync::atomic::Ordering::SeqCst);
+    match r {
         Ok(s) => s,
         Err(_) => "fail".to_string(),
     }
@@ -432,7 +438,7 @@ pub fn gen_lp_share(o: &mut Out, r: &mut Rng, n: u64) {
                 2 => {
                     // remainder boundary: d0*S ≡ 0 or -1 mod r0
                     let k = r.below(1_000_000) as u128;
-                    let d0 = if sup > 0 { (k.saturating_mul(r0)) / sup + r.below(2) as u128 } else { k };
+                    let d0 = if sup > 0 { ((k.saturating_mul(r0)) / sup).saturating_add(r.below(2) as u128) } else { k };
                     (d0, gen_u128_upto(r, 100))
                 }
                 _ => (gen_u128_upto(r, 100), gen_u128_upto(r, 100)),
